@@ -20,13 +20,48 @@ func encodeInto(m any, pre, consumed []byte, spare int) (status string, out []by
 	return
 }
 
+// "a buffer with nothing to read in it" comes in several shapes; the bytes an Encode appends must not depend on which
+var bufShapeCounter int
+var lastBufShape string
+
 func encodeFresh(m any) (string, []byte) {
-	st, out, _ := encodeInto(m, nil, nil, 0)
+	bufShapeCounter++
+	var consumed []byte
+	spare := 0
+	switch bufShapeCounter % 5 {
+	case 0:
+		lastBufShape = "zero-value"
+	case 1:
+		lastBufShape = "reset-with-large-stale-capacity"
+		spare = 4096
+	case 2:
+		lastBufShape = "partly-consumed-tight"
+		consumed = []byte{0xde, 0xad, 0xbe, 0xef, 0x01, 0x02, 0x03}
+		spare = bufShapeCounter % 23
+	case 3:
+		lastBufShape = "small-stale-capacity"
+		spare = 1 + bufShapeCounter%61
+	case 4:
+		lastBufShape = "consumed-with-stale-capacity"
+		consumed = bytes.Repeat([]byte{0x55}, 60)
+		spare = 16 + bufShapeCounter%200
+	}
+	st, out, _ := encodeInto(m, nil, consumed, spare)
 	return st, out
 }
 
 func decodeInto(recv any, in []byte) (status string, rest []byte) {
-	buf := bytes.NewBuffer(append([]byte{}, in...))
+	// the input sits in a buffer with a consumed prefix and stale bytes beyond its end now and then
+	bufShapeCounter++
+	var buf *bytes.Buffer
+	switch bufShapeCounter % 3 {
+	case 0:
+		buf = bytes.NewBuffer(append([]byte{}, in...))
+	case 1:
+		buf = mkBuffer(nil, in, 9+bufShapeCounter%40)
+	default:
+		buf = mkBuffer([]byte{0xaa, 0xbb, 0xcc}, in, bufShapeCounter%13)
+	}
 	status = callDecode(recv, buf)
 	if status == "ok" {
 		rest = append([]byte{}, buf.Bytes()...)
